@@ -10,8 +10,8 @@ VARIABLES calls, S
 
 Call(k, a, t, s, add, rem, key) == [k |-> k, a |-> a, t |-> t, s |-> s, add |-> add, rem |-> rem, key |-> key]
 
-Adds == {<<>>, <<1>>, <<2, 1>>, <<1, 1>>}
-Rems == {<<>>, <<1>>}
+Adds == {<<>>, <<1>>, <<2, 1>>, <<1, 1>>, <<3, 1, 2>>}
+Rems == {<<>>, <<1>>, <<3, 1>>}
 Alphabet ==
   {Call("comment", a, "", "", <<>>, <<>>, "") : a \in {1, 2}} \cup
   {Call("edit", a, t, "", <<>>, <<>>, "") : a \in {1, 2}, t \in {"create", "last", "unknown"}} \cup
